@@ -19,7 +19,7 @@ NOGT = "<nogt>"
 NOGT_PS = "<nogt>:PS:PQ"  # no genotype, but phase-set and quality values (in a GT-less record if no other sample has a GT)
 KINDS = [".", "./.", "0/.", "./1", "0", "1", "0/1", "1/0", "1|0", "0|1|1", "1/0/0", "0|.|1", NOGT, "0|1:PS", "0/1:HP:PQ", NOGT_PS, ".|1"]
 DIPLOID = {"./.", "0/.", "./1", "0/1", "1/0", "1|0", "0|1:PS", "0/1:HP:PQ"}
-POSITIONS = [60, 100, 140]
+POSITIONS = [60, 100, 140, 180]
 
 
 def reference():
@@ -84,6 +84,10 @@ def bases(tier):
         for seq in itertools.product(KINDS, repeat=n):
             for hv in ("declared", "phasing") if n <= 2 or T else ("declared",):
                 yield ([(k,) for k in seq], 1, hv)
+    if T:
+        # four records over a reduced alphabet (one representative per class of call)
+        for seq in itertools.product([".", "0/.", "1", "1/0", "1|0", "0|.|1", NOGT, "0|1:PS", "0/1:HP:PQ", NOGT_PS], repeat=4):
+            yield ([(k,) for k in seq], 1, "declared")
     for k in KINDS:
         if k not in ("0|1:PS", "0/1:HP:PQ", NOGT_PS):
             yield ([(k,)], 1, "undeclared")
@@ -109,8 +113,8 @@ def ctx():
         alns = []
         for s in ("S1", "S2"):
             for h in (0, 1):
-                for (a, b) in ((0, 2), (0, 1), (1, 2)):
-                    q, cig = synth.hap_read(seq, vs, [h] * 3, POSITIONS[a] - 20, POSITIONS[b] + 20)
+                for (a, b) in ((0, 2), (0, 1), (1, 2), (2, 3), (0, 3)):
+                    q, cig = synth.hap_read(seq, vs, [h] * len(POSITIONS), POSITIONS[a] - 20, POSITIONS[b] + 20)
                     alns.append({"name": f"{s}_{h}_{a}{b}", "chrom": "chrA", "start": POSITIONS[a] - 20, "cigar": cig, "seq": q, "rg": f"rg_{s}"})
         bam = os.path.join(sc.path, "reads.bam")
         synth.write_bam(bam, [("chrA", len(seq))], alns, read_groups=[{"ID": "rg_S1", "SM": "S1"}, {"ID": "rg_S2", "SM": "S2"}])
